@@ -4,7 +4,7 @@ from harness import classify_common as K
 from harness import gen_classify as G
 
 PROP = 'C01'
-MODELS = ['Model/ClassifyData.vo', 'Model/DepthView.vo']   # .vo files the generated case files import
+MODELS = ['Model/ClassifyData.vo', 'Model/DepthView.vo', 'Model/ClassifyCommand.vo']   # .vo files the generated case files import
 KEEP = {'C01'}
 
 
@@ -22,11 +22,15 @@ def run(ctx, out):
     # outages (stored data-interval numbers with a hole); own stream, the records are otherwise unchanged
     recs_cl = G.fine_share(recs_cl, C.rng_for(seed, PROP, 'fine'))
     K.check_cl(recs_cl, out, KEEP, PROP, 'cl')
+    K.command_probes(out, PROP)
     if tier == 'thorough':
         field_samples(out)
     out.rule = ('GS: random bipartite candidate graphs (<=6x6, a third with ties) through find_stable_matching; '
                 'MS: records of 10 structural classes through match_storms; CL: records through the CLI '
-                '(load, classify), one case per gap-free stretch. Non-trivial: at least one pair recorded and '
+                '(load, classify), one case per gap-free stretch AND one case per dataset for the whole command '
+                '(all rows of thresholds, grid_time_flags, storm, zeta_interval, zeta_interval_storm, or the kind of '
+                'exception, against classify_command evaluated in Coq; loaded_ok evaluated on the stretches read '
+                'from the database); boundary probes: no data interval, infinite level, NaN threshold. Non-trivial: at least one pair recorded and '
                 'some storm or rise has >= 2 candidates (contention); distinct by flag vectors / graph.')
     out.samples = [dict(level='MS', record=recs[0]), dict(level='GS', cands=str(graphs[1][0]), prefs=str(graphs[1][1]))]
     out.assumptions += ['schedule of the Python set is not observable: exact comparison when the outcome is '
